@@ -16,9 +16,9 @@
 (*   last frame   (backward)  tt1 = t-1, tt2 = t-2   a = x(t)   - 2 x(t-1) + x(t-2)   *)
 (*   first frame  (forward)   tt1 = t+1, tt2 = t+2   a = x(t+2) - 2 x(t+1) + x(t)     *)
 (*   otherwise    (central)   tt1 = t+1, tt2 = t-1   a = x(t+1) - 2 x(t)   + x(t-1)   *)
-(* i.e. always  x(v2) - 2 x(middle) + x(other end)  of three consecutive   *)
+(* i.e. always  x(latest) - 2 x(middle) + x(earliest)  of three consecutive *)
 (* time points, where x(.) at the other time points is the position of the *)
-(* TRACKED PARTNER of the vertex there.                                    *)
+(* TRACKED PARTNER of the vertex there (D: DAccLo, DAccValue).             *)
 (*                                                                         *)
 (* OBSERVATION (not a violation - no listed property states it): no case   *)
 (* divides by the squared time step. The result is a second DIFFERENCE of  *)
